@@ -89,7 +89,7 @@ VERDICT = {
     "C09-5": ("C09 K1b", "as it stood"),
     "C10-5": ("C10 S2", "option-snapshot set-order kernel added after the miss; replayed over 48 hash seeds"),
     "C13-5": ("C13 K1d", "missed by the quick tier of K1 (no sub-code in its option pool); code-state matrix over the whole code table added"),
-    "C14-5": ("C14 K3", "Context.set_line kernel added after the miss; verified by running the kernel directly on the patched tree (the seed_eval run had loaded the driver before the kernel was wired)"),
+    "C14-5": ("C14 K3", "Context.set_line kernel added after the miss"),
     "C15-5": ("C15 K3", "float floor-division kernel (clang IR -> z3, uninterpreted rounding then Float64, witness realised at divisor 1.0 and replayed on a real mypyc build) added after the miss; a first version ended with exit 2"),
     "C20-5": ("C20 K6", "jump-placement kernel added after the miss; replay = real mypy (INTERNAL ERROR)"),
     # third round
